@@ -6,19 +6,24 @@ use super::*;
 
 use super::{property, PropertyType};
 
+/// Reason code and property length are omitted for a normal disconnection
+/// without properties
+fn is_short(disconnect: &Disconnect, properties: &Option<DisconnectProperties>) -> bool {
+    disconnect.reason_code == DisconnectReasonCode::NormalDisconnection && properties.is_none()
+}
+
 fn len(disconnect: &Disconnect, properties: &Option<DisconnectProperties>) -> usize {
-    if disconnect.reason_code == DisconnectReasonCode::NormalDisconnection && properties.is_none() {
+    if is_short(disconnect, properties) {
         return 2; // Packet type + 0x00
     }
 
-    let mut length = 0;
+    let mut length = 1; // Disconnect Reason Code
     if let Some(properties) = &properties {
-        length += 1; // Disconnect Reason Code
         let properties_len = properties::len(properties);
         let properties_len_len = len_len(properties_len);
         length += properties_len_len + properties_len;
     } else {
-        length += 1;
+        length += 1; // Property length 0
     }
 
     length
@@ -69,7 +74,7 @@ pub fn write(
 
     let length = len(disconnect, properties);
 
-    if length == 2 {
+    if is_short(disconnect, properties) {
         buffer.put_u8(0x00);
         return Ok(length);
     }
